@@ -224,14 +224,20 @@ def minimise(mod, case, violation, budget_s=40.0, log=None):
     """Greedy delta-debugging over mod.shrink(case) while the same rule of
     the same property keeps failing."""
     rule = violation['rule']
+    key0 = violation.get('key')
+
+    def pick(vs):
+        # the same oracle rule AND the same key: a shrink step must not
+        # wander from an unlisted violation to a listed (known) one
+        same = [v for v in vs if v['rule'] == rule and v.get('key') == key0]
+        return same
     t0 = time.time()
     tried = 0
     if hasattr(mod, 'pin'):
         cand = mod.pin(case, violation)
         if cand is not None:
             try:
-                same = [v for v in mod.run_case(cand).get('violations', ())
-                        if v['rule'] == rule]
+                same = pick(mod.run_case(cand).get('violations', ()))
             except BaseException:
                 same = []
             if same:
@@ -247,8 +253,7 @@ def minimise(mod, case, violation, budget_s=40.0, log=None):
                 res = mod.run_case(cand)
             except BaseException:
                 continue
-            same = [v for v in res.get('violations', ())
-                    if v['rule'] == rule]
+            same = pick(res.get('violations', ()))
             if same:
                 case, violation = cand, same[0]
                 changed = True
